@@ -839,6 +839,31 @@ func (e *xstore) do(op string) {
 		for _, g := range groups {
 			for _, i := range g {
 				err := errs[i]
+				if e.kind == "file" {
+					// The file store can refuse a Push after having stored the content (restoring a
+					// duplicate under an unwritable name, ...) and can accept one without storing
+					// (IgnoreNoName): what is stored is asked from Exists; the outcome of Push itself
+					// is not judged here (C06/C11/C12), Predecessors against the stored set is.
+					ex, xerr := e.fileSt.Exists(ctx, e.desc(i))
+					switch {
+					case err == nil && ex:
+					case err == nil:
+						run.Count("file-push-ok-not-stored")
+					case errors.Is(err, errdef.ErrAlreadyExists):
+						run.Count("file-push-already-exists")
+					case ex:
+						run.Count("file-push-error-but-stored")
+					default:
+						run.Count("file-push-error-not-stored")
+					}
+					if xerr == nil && ex && !e.stored[i] {
+						e.stored[i] = true
+						e.mops = append(e.mops, fmt.Sprintf("+%d", i), fmt.Sprintf("I%d", i))
+						e.toks = append(e.toks, "ok")
+						e.sops = append(e.sops, fmt.Sprintf("P%d", i))
+					}
+					continue
+				}
 				switch {
 				case err == nil:
 					if e.stored[i] {
@@ -855,6 +880,24 @@ func (e *xstore) do(op string) {
 				}
 			}
 		}
+	case "opt":
+		if e.fileSt != nil {
+			switch arg {
+			case "forcecas":
+				e.fileSt.ForceCAS = true
+			case "ignorenoname":
+				e.fileSt.IgnoreNoName = true
+			case "nooverwrite":
+				e.fileSt.DisableOverwrite = true
+			}
+		}
+		return
+	case "pre":
+		// a file that exists in the working directory before the store writes it
+		if e.fileSt != nil && !strings.ContainsAny(arg, "/\\") {
+			os.WriteFile(filepath.Join(e.root, arg), []byte("pre-existing"), 0o644)
+		}
+		return
 	case "cmix":
 		// one goroutine per item, started together: <id> = Push, t<id>=<name> = Tag, u=<name> = Untag,
 		// x<id> = Delete.  Every name is touched by one item only and a deleted node is neither
@@ -1331,7 +1374,9 @@ func genStore(r *common.Rand, kind string, origin string) {
 		}
 		x := r.Intn(100)
 		if kind != "oci" {
-			if len(absent) > 0 {
+			if len(storedIDs) > 0 && x < 30 {
+				e.do(fmt.Sprintf("push:%d", common.Pick(r, storedIDs))) // refused: already exists
+			} else if len(absent) > 0 {
 				e.do(fmt.Sprintf("push:%d", common.Pick(r, absent)))
 			}
 			continue
@@ -1499,7 +1544,124 @@ func caseFromSeed(part string, seed uint64) {
 		genBurst(r, origin)
 	case "chain":
 		genChain(r, origin)
+	case "ftitle":
+		genFileTitles(r, origin)
 	}
+}
+
+// genFileTitles: the file store with manifests whose successor descriptors carry titles:
+// the blob's own name, a second name for the same content (restoreDuplicates writes it), a
+// name that cannot be written (path traversal, DisableOverwrite + existing file), with
+// ForceCAS / IgnoreNoName / DisableOverwrite, any push order and retries.
+func genFileTitles(r *common.Rand, origin string) {
+	var enc []dag.Encoded
+	add := func(kind, mt string, b []byte, succ []int) int {
+		enc = append(enc, dag.Encoded{Kind: kind, MediaType: mt, Bytes: b, Succ: succ, Subject: -1, TwinOf: -1})
+		return len(enc) - 1
+	}
+	descOf := func(i int) ocispec.Descriptor {
+		return content.NewDescriptorFromBytes(enc[i].MediaType, enc[i].Bytes)
+	}
+	salt := r.U64()
+	names := map[int]string{}
+	cfg := add(dag.KConfig, ocispec.MediaTypeImageConfig, []byte(fmt.Sprintf(`{"verif":"%x"}`, salt)), nil)
+	if r.Bool() {
+		names[cfg] = "config.json"
+	}
+	var layers []int
+	for i := 0; i < 1+r.Intn(3); i++ {
+		l := add(dag.KBlob, ocispec.MediaTypeImageLayer, []byte(fmt.Sprintf("layer-%d-%x", i, salt)), nil)
+		layers = append(layers, l)
+		if r.Chance(2, 3) {
+			names[l] = fmt.Sprintf("f%d.bin", l)
+		}
+	}
+	nooverwrite := r.Chance(1, 4)
+	titled := func(i int, mi, k int, class *string) ocispec.Descriptor {
+		d := descOf(i)
+		switch x := r.Intn(12); {
+		case x < 3 && names[i] != "":
+			d.Annotations = map[string]string{ocispec.AnnotationTitle: names[i]}
+		case x < 7:
+			d.Annotations = map[string]string{ocispec.AnnotationTitle: fmt.Sprintf("dup-%d-%d-%d.bin", mi, k, i)}
+			*class = "alt"
+		case x < 8:
+			d.Annotations = map[string]string{ocispec.AnnotationTitle: fmt.Sprintf("../escape-%d-%d.txt", mi, k)}
+			*class = "bad"
+		case x < 9 && nooverwrite:
+			d.Annotations = map[string]string{ocispec.AnnotationTitle: "pre.txt"}
+			*class = "pre"
+		}
+		return d
+	}
+	var manifests []int
+	for mi := 0; mi < 1+r.Intn(4); mi++ {
+		class := "plain"
+		m := ocispec.Manifest{MediaType: ocispec.MediaTypeImageManifest, Layers: []ocispec.Descriptor{},
+			Annotations: map[string]string{"verif.id": fmt.Sprintf("%d-%x", mi, salt)}}
+		m.SchemaVersion = 2
+		m.Config = titled(cfg, mi, 0, &class)
+		succ := []int{cfg}
+		for k, l := range layers {
+			if r.Chance(2, 3) {
+				m.Layers = append(m.Layers, titled(l, mi, k+1, &class))
+				succ = append(succ, l)
+			}
+		}
+		b, _ := json.Marshal(m)
+		id := add(dag.KImage, ocispec.MediaTypeImageManifest, b, succ)
+		manifests = append(manifests, id)
+		if r.Chance(1, 4) {
+			names[id] = fmt.Sprintf("m%d.json", id)
+		}
+		run.Count("ftitle-manifest-" + class)
+	}
+	g := dag.Decode(enc)
+	e := &xstore{u: newUniverse(g), kind: "file", id: run.NewID(), origin: origin}
+	if err := e.open(); err != nil {
+		panic(err)
+	}
+	defer e.close()
+	for i, nm := range names {
+		e.names[i] = nm
+	}
+	var ids []int
+	for i := range enc {
+		ids = append(ids, i)
+		if nm, ok := names[i]; ok {
+			e.script = append(e.script, fmt.Sprintf("name:%d:%s", i, nm))
+		}
+	}
+	if nooverwrite {
+		e.do("opt:nooverwrite")
+		e.do("pre:pre.txt")
+	}
+	if r.Chance(1, 6) {
+		e.do("opt:forcecas")
+	}
+	if r.Chance(1, 6) {
+		e.do("opt:ignorenoname")
+	}
+	switch r.Intn(3) {
+	case 1:
+		for i, j := 0, len(ids)-1; i < j; i, j = i+1, j-1 {
+			ids[i], ids[j] = ids[j], ids[i]
+		}
+	case 2:
+		common.Shuffle(r, ids)
+	}
+	for _, i := range ids {
+		e.do(fmt.Sprintf("push:%d", i))
+	}
+	// retries of everything (already exists / now restorable)
+	common.Shuffle(r, ids)
+	for _, i := range ids {
+		if r.Bool() {
+			e.do(fmt.Sprintf("push:%d", i))
+		}
+	}
+	run.Count("ftitle")
+	e.finish(origin)
 }
 
 // genChain: nested manifests under one tagged root, then GC, reopen, Delete of the root
@@ -1785,6 +1947,9 @@ func main() {
 	}
 	for i := 0; i < run.Scale(40, 1500); i++ {
 		caseFromSeed("chain", run.Rand.U64())
+	}
+	for i := 0; i < run.Scale(120, 4000); i++ {
+		caseFromSeed("ftitle", run.Rand.U64())
 	}
 	kinds := []string{"oci", "oci", "oci", "oci", "memory", "file"}
 	for i := 0; i < nStore; i++ {
